@@ -3,7 +3,7 @@ package main
 func init() {
 	register(prop{
 		ID: "C06", Pkg: "c06",
-		Rule:        "TestC06_Race: right after initialize a raw peer writes notifications/initialized together with 1-4 logging/setLevel calls (handled concurrently), then repeats the notification: the initialized handler runs exactly once however the state updates interleave (scheduler-dependent: mostly a thorough-tier check). rapid draws sequences (<=20) over lifecycle and feature methods x per-request _meta variants (none, complete triple, no clientInfo, missing/invalid clientCapabilities, invalid clientInfo, unsupported newer version, non-string version, legacy version string) x initialize params variants (5 supported + unknown versions, null, absent, wrong-typed, array); raw ndjson peer over an io pipe; oracle = reference lifecycle machine + receiving middleware log + handler counters + InitializeParams()/log-level probes. TestC06_HTTP sends the 2026-07-28 requests (all metadata variants, mirrored in the Mcp-* headers) to a stateless streamable endpoint. Non-trivial = a feature request before an accepted initialize, a failed initialize followed by a feature request, or a sequence mixing _meta and legacy traffic; distinct by (method, meta, init-variant) sequence.",
+		Rule:        "TestC06_StatelessBatch: legacy JSON-RPC batches of 1-5 messages (initialize, initialized, ping, tools/call, tools/list in any order) POSTed to a stateless streamable endpoint: when the batch carries an initialize, a tools/call placed before it is not served and that initialize is not refused as a duplicate. TestC06_Race: right after initialize a raw peer writes notifications/initialized together with 1-4 logging/setLevel calls (handled concurrently), then repeats the notification: the initialized handler runs exactly once however the state updates interleave (scheduler-dependent: mostly a thorough-tier check). rapid draws sequences (<=20) over lifecycle and feature methods x per-request _meta variants (none, complete triple, no clientInfo, missing/invalid clientCapabilities, invalid clientInfo, unsupported newer version, non-string version, legacy version string) x initialize params variants (5 supported + unknown versions, null, absent, wrong-typed, array); raw ndjson peer over an io pipe; oracle = reference lifecycle machine + receiving middleware log + handler counters + InitializeParams()/log-level probes. TestC06_HTTP sends the 2026-07-28 requests (all metadata variants, mirrored in the Mcp-* headers) to a stateless streamable endpoint. Non-trivial = a feature request before an accepted initialize, a failed initialize followed by a feature request, or a sequence mixing _meta and legacy traffic; distinct by (method, meta, init-variant) sequence.",
 		Assumptions: []string{"stdio-like transport (io pipe) which serves both legacy and 2026-07-28 requests", "once a 2026-07-28 request has been served the session is no longer 'a legacy-protocol session': legacy gating is then not asserted (ping, discover and metadata checks still are)", "when metadata is both incomplete and names an unsupported version either mandated code is accepted"},
 		LevelText:   "Generated message histories against a reference lifecycle state machine; 'reached server-side handlers' is observed by a receiving middleware and handler counters, state changes by InitializeParams() and a log-level probe.",
 		LevelNote:   "Trusts the reference machine in harness/c06 (written from the property text).",
@@ -11,6 +11,7 @@ func init() {
 		DesignRef:   "DESIGN.md section 3, C06",
 		Runs: []run{
 			{Test: "TestC06_Lifecycle", Quick: 3000, Thorough: 120000},
+			{Test: "TestC06_StatelessBatch", Quick: 2000, Thorough: 60000, Shards: 8},
 			{Test: "TestC06_Race", Quick: 2000, Thorough: 150000},
 			{Test: "TestC06_HTTP", Quick: 1500, Thorough: 45000, Shards: 4},
 		},
